@@ -460,7 +460,12 @@ fn run_case(ctx: &Ctx, index: u64, rep: &mut Report) {
                 6 => ": : PRINT 1 : : PRINT 2".into(),
                 _ => {
                     let g = prog::generate(&mut rng, &GenOpts { inputs: false, stops: false, functions: false, max_main_blocks: 1, ..GenOpts::default() });
-                    g.prog.lines.iter().map(|l| l.body_text()).filter(|b| !b.contains("GOTO") && !b.contains("GOSUB") && !b.contains("THEN")).take(2).collect::<Vec<_>>().join(" : ")
+                    // (only statements that do not look at what the twin's edit invalidates: open loops, frames, the DATA
+                    // cursor, defined functions. NEXT I would continue the suspended program's loop in one session and
+                    // fail in the other, quite correctly.)
+                    g.prog.lines.iter().map(|l| l.body_text())
+                        .filter(|b| !["GOTO", "GOSUB", "THEN", "NEXT", "RETURN", "READ", "RESTORE", "FN", "END", "STOP"].iter().any(|w| b.contains(w)))
+                        .take(2).collect::<Vec<_>>().join(" : ")
                 }
             };
             let host_break = rng.coin();
